@@ -12,6 +12,7 @@ import weakref
 
 from . import bootstrap  # noqa: F401
 from .probe import Session
+from .models.until import decode
 
 import usim
 from usim import (
@@ -190,7 +191,7 @@ class Env:
             self.junk()
         obj['tracked'] = []
         for value in spec.get('tracked', []):
-            obj['tracked'].append(Tracked(value))
+            obj['tracked'].append(Tracked(decode(value)))
             self.junk()
         obj['locks'] = []
         for _ in range(spec.get('locks', 0)):
@@ -382,8 +383,10 @@ def _make_notif(env, spec):
     if kind == 'tracked':
         left = obj['tracked'][spec['i']]
         right = spec['v']
-        if isinstance(right, dict):
+        if isinstance(right, dict) and 'i' in right:
             right = obj['tracked'][right['i']]
+        else:
+            right = decode(right)
         return {
             'lt': lambda: left < right, 'le': lambda: left <= right,
             'eq': lambda: left == right, 'ne': lambda: left != right,
@@ -558,8 +561,8 @@ async def op_settracked(env, ctx, step):
         await (tracked + step['add'])
     else:
         env.shadow['tracked'][step['i']] = step['v']
-        await tracked.set(step['v'])
-    return tracked.value
+        await tracked.set(decode(step['v']))
+    return repr(tracked.value)
 
 
 async def op_lock(env, ctx, step):
